@@ -120,6 +120,14 @@ def _check_op(out, op, res, want_ref, alpha, n):
 
 
 def run(case, out):
+    try:
+        _run(case, out)
+    except M.TooLarge:
+        # the reference relation of some operation result is too large to enumerate: nothing is concluded
+        out.probe("reference_relation_too_large_skipped")
+
+
+def _run(case, out):
     ca, cb = case["a"], case["b"]
     if case["same_object"]:
         cb = ca
